@@ -2,20 +2,32 @@ package maven
 
 import (
 	"fmt"
-	"strconv"
 	"strings"
 	"unicode"
 )
 
 type Version struct {
 	original string
-	elements []element
+	items    *item // canonical item tree, as in Maven's ComparableVersion
 }
 
-type element struct {
-	value    interface{} // string or int
-	isNumber bool
+// item is one node of the canonical form: a number, a qualifier string or a (sub-)list.
+// A list is opened by every '-' and by every transition between digits and letters, so
+// that "1-1" < "1.0.1" < "1.1" and "1.0-rc1" == "1.0-rc-1".
+type item struct {
+	kind itemKind
+	num  string  // decimal digits without leading zeros (kind == numberItem)
+	str  string  // normalised lower-case qualifier (kind == stringItem)
+	list []*item // kind == listItem
 }
+
+type itemKind int
+
+const (
+	numberItem itemKind = iota
+	stringItem
+	listItem
+)
 
 func (e *Ecosystem) NewVersion(version string) (*Version, error) {
 	if version == "" {
@@ -33,11 +45,9 @@ func (e *Ecosystem) NewVersion(version string) (*Version, error) {
 		return nil, fmt.Errorf("invalid Maven version format: %s", trimmed)
 	}
 
-	elements := parseVersionString(trimmed)
-
 	return &Version{
 		original: version,
-		elements: elements,
+		items:    parseVersionString(trimmed),
 	}, nil
 }
 
@@ -72,103 +82,106 @@ func isValidMavenVersion(version string) bool {
 }
 
 func (v *Version) Compare(other *Version) int {
-	// Compare elements one by one
-	maxLen := len(v.elements)
-	if len(other.elements) > maxLen {
-		maxLen = len(other.elements)
-	}
-
-	for i := 0; i < maxLen; i++ {
-		var elem1, elem2 element
-
-		// Get element or use "null" element if past end
-		if i < len(v.elements) {
-			elem1 = v.elements[i]
-		} else {
-			elem1 = element{value: 0, isNumber: true} // null element
-		}
-
-		if i < len(other.elements) {
-			elem2 = other.elements[i]
-		} else {
-			elem2 = element{value: 0, isNumber: true} // null element
-		}
-
-		cmp := compareElements(elem1, elem2)
-		if cmp != 0 {
-			return cmp
-		}
-	}
-
-	return 0 // versions are equal
+	return compareItems(v.items, other.items)
 }
 
-func compareElements(e1, e2 element) int {
-	// If both are numbers, compare numerically
-	if e1.isNumber && e2.isNumber {
-		n1 := e1.value.(int)
-		n2 := e2.value.(int)
-		if n1 < n2 {
-			return -1
-		}
-		if n1 > n2 {
+// compareItems compares two items following ComparableVersion: numbers numerically;
+// a number is newer than any qualifier and than any sub-list; a sub-list is newer than a
+// qualifier; qualifiers by qualifierOrder, unknown ones after all known ones and
+// alphabetically among themselves; a missing item (nil) counts as "null" (0, "", empty list).
+func compareItems(a, b *item) int {
+	if a == nil && b == nil {
+		return 0
+	}
+	if a == nil {
+		return -compareItems(b, nil)
+	}
+
+	switch a.kind {
+	case numberItem:
+		if b == nil {
+			if a.num == "0" {
+				return 0
+			}
 			return 1
+		}
+		if b.kind == numberItem {
+			return compareNumbers(a.num, b.num)
+		}
+		return 1 // number > qualifier, number > sub-list
+
+	case stringItem:
+		if b == nil {
+			return compareQualifiers(a.str, "")
+		}
+		switch b.kind {
+		case numberItem:
+			return -1
+		case stringItem:
+			return compareQualifiers(a.str, b.str)
+		default:
+			return -1 // qualifier < sub-list
+		}
+
+	default:
+		if b == nil {
+			// compare each item of the list with "null"
+			for _, x := range a.list {
+				if cmp := compareItems(x, nil); cmp != 0 {
+					return cmp
+				}
+			}
+			return 0
+		}
+		switch b.kind {
+		case numberItem:
+			return -1
+		case stringItem:
+			return 1
+		}
+		maxLen := len(a.list)
+		if len(b.list) > maxLen {
+			maxLen = len(b.list)
+		}
+		for i := 0; i < maxLen; i++ {
+			var x, y *item
+			if i < len(a.list) {
+				x = a.list[i]
+			}
+			if i < len(b.list) {
+				y = b.list[i]
+			}
+			if cmp := compareItems(x, y); cmp != 0 {
+				return cmp
+			}
 		}
 		return 0
 	}
+}
 
-	// If one is number and other is string, number comes first (unless string is empty/release)
-	if e1.isNumber && !e2.isNumber {
-		s2 := e2.value.(string)
-		if s2 == "" {
-			// number vs empty string: empty string (release) is greater
+// compareNumbers compares two decimal strings without leading zeros
+func compareNumbers(a, b string) int {
+	if len(a) != len(b) {
+		if len(a) < len(b) {
 			return -1
 		}
-		if s2 == "sp" {
-			// number vs sp: sp is greater
-			return -1
-		}
-		// number vs other qualifier: number is greater
 		return 1
 	}
+	return strings.Compare(a, b)
+}
 
-	if !e1.isNumber && e2.isNumber {
-		s1 := e1.value.(string)
-		if s1 == "" {
-			// empty string (release) vs number: empty string is greater
-			return 1
-		}
-		if s1 == "sp" {
-			// sp vs number: sp is greater
-			return 1
-		}
-		// other qualifier vs number: number is greater
-		return -1
-	}
-
-	// Both are strings - compare by qualifier order
-	s1 := e1.value.(string)
-	s2 := e2.value.(string)
-
+// compareQualifiers orders two normalised qualifiers
+func compareQualifiers(s1, s2 string) int {
 	order1, exists1 := qualifierOrder[s1]
 	order2, exists2 := qualifierOrder[s2]
 
 	// Unknown qualifiers come after known qualifiers
 	if !exists1 && !exists2 {
-		// Both unknown - lexicographic comparison
-		if s1 < s2 {
-			return -1
-		}
-		if s1 > s2 {
-			return 1
-		}
-		return 0
+		return strings.Compare(s1, s2) // Both unknown - lexicographic comparison
 	}
-
 	if !exists1 {
 		return 1 // unknown qualifier comes after known
 	}
-
 	if !exists2 {
 		return -1 // known qualifier comes before unknown
 	}
@@ -205,69 +218,88 @@ var qualifierOrder = map[string]int{
 	"sp":        7,
 }
 
-func parseVersionString(version string) []element {
-	var elements []element
+// parseVersionString builds the canonical item tree of a version string
+func parseVersionString(version string) *item {
+	version = strings.ToLower(version)
 
-	// Split by common separators and transitions
-	parts := tokenize(version)
-
-	for _, part := range parts {
-		if part == "" {
-			continue
+	root := &item{kind: listItem}
+	list := root
+	stack := []*item{root}
+	push := func() {
+		sub := &item{kind: listItem}
+		list.list = append(list.list, sub)
+		list = sub
+		stack = append(stack, sub)
+	}
+	newItem := func(isDigit bool, token string) *item {
+		if isDigit {
+			token = strings.TrimLeft(token, "0")
+			if token == "" {
+				token = "0"
+			}
+			return &item{kind: numberItem, num: token}
 		}
-
-		// Normalize qualifiers
-		normalized := normalizeQualifier(part)
-
-		// Try to parse as number
-		if num, err := strconv.Atoi(normalized); err == nil {
-			elements = append(elements, element{value: num, isNumber: true})
-		} else {
-			elements = append(elements, element{value: normalized, isNumber: false})
-		}
+		return &item{kind: stringItem, str: normalizeQualifier(token)}
 	}
 
-	// Trim trailing null elements (0, "", "final", "ga")
-	elements = trimTrailingNulls(elements)
-
-	return elements
-}
-
-func tokenize(version string) []string {
-	var tokens []string
-	var current strings.Builder
-
-	for i, r := range version {
+	isDigit := false
+	start := 0
+	for i := 0; i < len(version); i++ {
+		c := version[i]
 		switch {
-		case r == '.' || r == '-':
-			// Add current token if not empty
-			if current.Len() > 0 {
-				tokens = append(tokens, current.String())
-				current.Reset()
+		case c == '.':
+			if i == start {
+				list.list = append(list.list, &item{kind: numberItem, num: "0"})
+			} else {
+				list.list = append(list.list, newItem(isDigit, version[start:i]))
 			}
-		case i > 0:
-			prev := rune(version[i-1])
-			// Check for transitions between digits and letters
-			if (unicode.IsDigit(prev) && unicode.IsLetter(r)) ||
-				(unicode.IsLetter(prev) && unicode.IsDigit(r)) {
-				// Add current token and start new one
-				if current.Len() > 0 {
-					tokens = append(tokens, current.String())
-					current.Reset()
+			start = i + 1
+
+		case c == '-':
+			if i == start {
+				list.list = append(list.list, &item{kind: numberItem, num: "0"})
+			} else {
+				list.list = append(list.list, newItem(isDigit, version[start:i]))
+			}
+			start = i + 1
+			push()
+
+		case c >= '0' && c <= '9':
+			if !isDigit && i > start {
+				// letters followed by digits: "rc1" is "rc-1"; a qualifier always starts its own sub-list
+				if len(list.list) > 0 {
+					push()
 				}
+				list.list = append(list.list, newItem(false, version[start:i]))
+				start = i
+				push()
 			}
-			current.WriteRune(r)
+			isDigit = true
+
 		default:
-			current.WriteRune(r)
+			if isDigit && i > start {
+				// digits followed by letters: "1rc" is "1-rc"
+				list.list = append(list.list, newItem(true, version[start:i]))
+				start = i
+				push()
+			}
+			isDigit = false
 		}
 	}
 
-	// Add final token
-	if current.Len() > 0 {
-		tokens = append(tokens, current.String())
+	if len(version) > start {
+		if !isDigit && len(list.list) > 0 {
+			push()
+		}
+		list.list = append(list.list, newItem(isDigit, version[start:]))
 	}
 
-	return tokens
+	// Trim trailing "null" items (0, "", "final", "ga", empty lists) of every list, innermost first
+	for i := len(stack) - 1; i >= 0; i-- {
+		trimTrailingNulls(stack[i])
+	}
+
+	return root
 }
 
 func normalizeQualifier(s string) string {
@@ -290,23 +322,26 @@ func normalizeQualifier(s string) string {
 	return lower
 }
 
-func trimTrailingNulls(elements []element) []element {
-	// Remove trailing elements that are equivalent to "null"
-	for len(elements) > 0 {
-		last := elements[len(elements)-1]
-		if isNullElement(last) {
-			elements = elements[:len(elements)-1]
-		} else {
+func trimTrailingNulls(l *item) {
+	// Remove trailing items that are equivalent to "null"; stop at the first
+	// non-null item that is not itself a list
+	for i := len(l.list) - 1; i >= 0; i-- {
+		last := l.list[i]
+		if isNullItem(last) {
+			l.list = append(l.list[:i], l.list[i+1:]...)
+		} else if last.kind != listItem {
 			break
 		}
 	}
-	return elements
 }
 
-func isNullElement(e element) bool {
-	if e.isNumber {
-		return e.value.(int) == 0
+func isNullItem(it *item) bool {
+	switch it.kind {
+	case numberItem:
+		return it.num == "0"
+	case stringItem:
+		return it.str == ""
+	default:
+		return len(it.list) == 0
 	}
-	str := e.value.(string)
-	return str == "" || str == "final" || str == "ga" || str == "release"
 }
